@@ -95,7 +95,9 @@ func c16Mutations(q string) []string {
 
 var c16Funcs = []string{"SUM", "MIN", "MAX", "COUNT", "AVG", "WAVG", "IF", "BOUNDED", "PERCENTILE", "SHIFT", "CROSSHIFT", "CROSSTAB", "CROSSTABT", "LN", "LOG2", "LOG10",
 	"LEN", "CONCAT", "SPLIT", "SUBSTR", "REPLACEALL", "ANY", "ARRAY", "DECODE", "RAND", "HGET", "SISMEMBER", "LUA", "CITY", "REGION", "REGION_CITY", "COUNTRY_CODE", "ISP", "ORG", "ASN", "ASNAME", "PLEN", "PCONCAT", "NOSUCHFN", "PERIOD", "STRIDE"}
-var c16ArgKinds = []string{"a", "1", "'s'", "ARRAY(x, y)", "*", "SUM(a)", "'-1s'"}
+// argument kinds: a SUM field, a number, a string, an array, *, an aggregate call, a duration, and further kinds of
+// stored fields and dimensions (an existing PERCENTILE field, an AVG field, a dimension)
+var c16ArgKinds = []string{"a", "1", "'s'", "ARRAY(x, y)", "*", "SUM(a)", "'-1s'", "p", "av", "x"}
 var c16RegionCityInWhere = regexp.MustCompile(`(?i)\b(WHERE|HAVING)\b.*\bP?REGION_CITY\s*\(`)
 var c16NeedsInfra = regexp.MustCompile(`(?i)\b(HGET|SISMEMBER|LUA|CITY|REGION|REGION_CITY|COUNTRY_CODE|ISP|ORG|ASN|ASNAME|RAND)\s*\(`)
 
@@ -107,17 +109,33 @@ func c16FuncQueries() []string {
 				if arity == 0 && ki > 0 {
 					continue
 				}
-				args := make([]string, arity)
-				for i := range args {
-					// first argument of the given kind, the rest cycle through the kinds
-					args[i] = c16ArgKinds[(ki+i)%len(c16ArgKinds)]
+				// three argument patterns: the first argument of the given kind and the rest cycling through the
+				// kinds; the first of the given kind followed by numbers (the well-typed shape of most parameter
+				// lists, so that arity mistakes are reached); all arguments of the given kind
+				seen := map[string]bool{}
+				for pattern := 0; pattern < 3; pattern++ {
+					args := make([]string, arity)
+					for i := range args {
+						switch {
+						case pattern == 0:
+							args[i] = c16ArgKinds[(ki+i)%len(c16ArgKinds)]
+						case pattern == 1 && i > 0:
+							args[i] = fmt.Sprint(i)
+						default:
+							args[i] = c16ArgKinds[ki]
+						}
+					}
+					call := fn + "(" + strings.Join(args, ", ") + ")"
+					if seen[call] {
+						continue
+					}
+					seen[call] = true
+					out = append(out,
+						"SELECT "+call+" AS f FROM t16",
+						"SELECT a FROM t16 WHERE "+call+" = 1",
+						"SELECT a FROM t16 GROUP BY "+call+" AS g",
+						"SELECT a FROM t16 HAVING "+call+" > 0")
 				}
-				call := fn + "(" + strings.Join(args, ", ") + ")"
-				out = append(out,
-					"SELECT "+call+" AS f FROM t16",
-					"SELECT a FROM t16 WHERE "+call+" = 1",
-					"SELECT a FROM t16 GROUP BY "+call+" AS g",
-					"SELECT a FROM t16 HAVING "+call+" > 0")
 			}
 		}
 	}
@@ -633,7 +651,7 @@ func init() {
 		ID:          "C16",
 		Level:       "exploration",
 		NoThreads:   true,
-		Rule:        "SQL: 60 statements covering every statement kind and every SELECT construct the vendored grammar accepts but zenodb does not support; a 71-query corpus × all single-token deletions, duplications, adjacent swaps and truncation prefixes (tokenised by the harness); every function name known to sql.go (aggregates, IF, BOUNDED, PERCENTILE, SHIFT, CROSSHIFT, CROSSTAB(T), math, dim functions incl. LUA/HGET/SPLIT/ANY, pushdown P-prefix, an unknown name) × arity 0..6 × 7 argument kinds × SELECT/WHERE/GROUP BY/HAVING position; each through sql.Parse, sql.TableFor, planner.Plan (local and with QueryCluster over mock partitions) and DB.Query().Iterate on a small DB (planning only for functions needing redis/geo/ISP infrastructure), under recover() with a 20 s watchdog; inserts: the 26×26 product of Go/JSON value kinds as dimension and value through DB.Insert, nil/empty maps, extreme timestamps, every prefix and every single-byte corruption (3 values per byte) of valid dims and vals through InsertRaw, on a standalone DB and through the leader of a 2-partition cluster, plus 22 JSON bodies through the web insert endpoint; each payload is sandwiched between two valid marker points which must both be ingested exactly once (exact quiescence), i.e. the pipeline neither crashes nor stalls; non-trivial = mutated statement that still plans / payload executed",
+		Rule:        "SQL: 60 statements covering every statement kind and every SELECT construct the vendored grammar accepts but zenodb does not support; a 71-query corpus × all single-token deletions, duplications, adjacent swaps and truncation prefixes (tokenised by the harness); every function name known to sql.go (aggregates, IF, BOUNDED, PERCENTILE, SHIFT, CROSSHIFT, CROSSTAB(T), math, dim functions incl. LUA/HGET/SPLIT/ANY, pushdown P-prefix, an unknown name) × arity 0..6 × 10 argument kinds (incl. an existing PERCENTILE field, an AVG field, a dimension) × 3 argument patterns (kinds cycling, first of the kind followed by numbers, all of the kind) × SELECT/WHERE/GROUP BY/HAVING position; each through sql.Parse, sql.TableFor, planner.Plan (local and with QueryCluster over mock partitions) and DB.Query().Iterate on a small DB (planning only for functions needing redis/geo/ISP infrastructure), under recover() with a 20 s watchdog; inserts: the 26×26 product of Go/JSON value kinds as dimension and value through DB.Insert, nil/empty maps, extreme timestamps, every prefix and every single-byte corruption (3 values per byte) of valid dims and vals through InsertRaw, on a standalone DB and through the leader of a 2-partition cluster, plus 22 JSON bodies through the web insert endpoint; each payload is sandwiched between two valid marker points which must both be ingested exactly once (exact quiescence), i.e. the pipeline neither crashes nor stalls; non-trivial = mutated statement that still plans / payload executed",
 		Assumptions: []string{"functions that need redis, geo or ISP infrastructure are parsed and planned but not executed"},
 		Shards:      func(tier string) int { return 12 },
 		Budget:      func(tier string) time.Duration { return 30 * time.Minute },
